@@ -6,7 +6,7 @@
    [spec_3mr d r] = the property's four clauses for an arbitrary data frame r (whatever the tie-breaking);
    [valid_3mr] = the boolean validator the harness evaluates on the implementation's data frame. *)
 From Coq Require Import List QArith ZArith NArith Permutation Sorting.Sorted.
-From Outrank Require Import Rank.QMedian Rank.ThreeMR Rank.ThreeMRProofs.
+From Outrank Require Import Rank.QMedian Rank.QMedianProofs Rank.ThreeMR Rank.ThreeMRProofs.
 Import ListNotations.
 Open Scope Q_scope.
 
